@@ -162,7 +162,24 @@ unit(name="SrcSaisLms", props="property C03", file=SA_FILE, dialect="gensa", str
                      aliases={"T": "u64"}, abstract_fns=SA_ABS_TYPES, abs_self_calls=SA_ABS_LMS,
                      self_fields=[(k, SA_FIELDS[k]) for k in SA_ALL],
                      params=[("text", "&[T]"), ("pos_types", "&PosTypes")], ret=None, locals={"i": "usize"},
-                     theorem="RbV.Thm.GenSrcSaisLms.calc_lms_pos_eq_model")])
+                     theorem="RbV.Thm.GenSrcSaisLms.calc_lms_pos_eq_model"),
+                # `S` (the integer type of the reduced text) is read at `u64`, `cast::<usize, S>` is the abstract `castS`;
+                # `self.construct(&reduced_text)` (the recursion) is the abstract `construct`
+                dict(name="Sais::sort_lms_suffixes", lean="sort_lms_suffixes",
+                     header="fn sort_lms_suffixes< T: Integer + Unsigned + NumCast + Copy + Debug, "
+                            "S: Integer + Unsigned + NumCast + Copy + Debug, >( &mut self, text: &[T], pos_types: &PosTypes, "
+                            "lms_substring_count: usize, )",
+                     aliases={"T": "u64", "S": "u64"},
+                     abstract_fns=dict(SA_ABS_TYPES, cast=dict(lean="castS", args=["usize"], ret="Option<S>")),
+                     abs_self_calls={"construct": dict(lean="construct", reads=["self." + k for k in SA_ALL], args=["&[S]"],
+                                                       writes=["self." + k for k in SA_ALL])},
+                     self_calls={"lms_substring_eq": dict(lean="lms_substring_eq", self_args=[],
+                                                          args=["&[T]", "&PosTypes", "usize", "usize"], ret="bool",
+                                                          abs=["isL", "isS", "isLms"])},
+                     self_fields=[(k, SA_FIELDS[k]) for k in SA_ALL],
+                     params=[("text", "&[T]"), ("pos_types", "&PosTypes"), ("lms_substring_count", "usize")], ret=None,
+                     locals={"label": "usize", "prev": "Option<usize>", "reduced_text": "Vec<S>", "lms_pos": "Vec<usize>"},
+                     theorem="RbV.Thm.GenSrcSaisLms.sort_lms_suffixes_eq_model")])
 
 _SA = {}
 
@@ -402,6 +419,11 @@ def _sa_classes():
             return BaseF.expr(self, e, code, expected)
 
         def mcall(self, e, code, expected):
+            if e.name in ("is_some", "is_none") and not e.args:
+                rt = self.dry(e.recv)
+                if isinstance(rt, cf.TOpt):
+                    r, _ = self.expr(e.recv, code)
+                    return "%s.%s" % (atom_(r), "isSome" if e.name == "is_some" else "isNone"), cb.TBool()
             if e.name == "get_bit" and len(e.args) == 1:
                 rt = self.dry(e.recv)
                 if rt == cb.TSeq(cb.TBool()):
